@@ -141,13 +141,10 @@ MUTANTS = [
          """        return struct.pack(f"{self.endianness.value}{st}", self.arg & (2 ** (8 * self.num_bytes) - 1) if not self.signed else self.arg)"""),
     ]),
     dict(prop="C15", name="short-binunicode-length-wraps(two sites)", edits=[
-        ("fickling/fickle.py", """        if not isinstance(obj, str):
-            raise ValueError(f"obj must be of type str, not {obj!r}")
-        return super().validate(obj.encode("utf-8"))""", """        if not isinstance(obj, str):
-            raise ValueError(f"obj must be of type str, not {obj!r}")
-        if cls.length_bytes == 1 and len(obj) <= 255:
-            return obj.encode("utf-8")
-        return super().validate(obj.encode("utf-8"))"""),
+        ("fickling/fickle.py", """        super().validate(obj.encode("utf-8"))
+        return obj""", """        if not (cls.length_bytes == 1 and len(obj) <= 255):
+            super().validate(obj.encode("utf-8"))
+        return obj"""),
         ("fickling/fickle.py", """        if length < cls.min_value or length > cls.max_value:
             raise ValueError(
                 f"Invalid length {length}: {cls.__name__} can only represent lengths in the range "
@@ -310,10 +307,10 @@ MUTANTS = [
          new="        elif name not in self.allowlist[module] and module != 'collections':"),
     # ---- C12
     dict(prop="C12", name="exit-restores-import-time-original", file="fickling/context.py",
-         old="        pickle.load = self.original_pickle_load",
+         old="        pickle.load = self._entered_with.pop() if self._entered_with else self.original_pickle_load",
          new="        pickle.load = hook._original_pickle_load"),
     dict(prop="C12", name="exit-does-not-restore", file="fickling/context.py",
-         old="        pickle.load = self.original_pickle_load",
+         old="        pickle.load = self._entered_with.pop() if self._entered_with else self.original_pickle_load",
          new="        pass"),
     dict(prop="C12", name="remove-hook-forgets-_pickle.loads", file="fickling/hook.py",
          old="""    pickle.loads = _original_pickle_loads
@@ -329,11 +326,11 @@ MUTANTS = [
         return self""",
          new="""        return self"""),
     dict(prop="C12", name="exit-swallows-exceptions", file="fickling/context.py",
-         old="        pickle.load = self.original_pickle_load",
-         new="        pickle.load = self.original_pickle_load\n        return True"),
+         old="        pickle.load = self._entered_with.pop() if self._entered_with else self.original_pickle_load",
+         new="        pickle.load = self._entered_with.pop() if self._entered_with else self.original_pickle_load\n        return True"),
     dict(prop="C12", name="context-captures-original-at-enter-of-outermost-only", file="fickling/context.py",
-         old="        self.original_pickle_load = pickle.load",
-         new="        self.original_pickle_load = pickle.load if pickle.load is not loader.load else hook._original_pickle_load"),
+         old="        self._entered_with.append(pickle.load)",
+         new="        self._entered_with.append(pickle.load if pickle.load is not loader.load else hook._original_pickle_load)"),
     # ---- C16
     dict(prop="C16", name="skips-byteorder-member", file="fickling/pytorch.py",
          old="""                            else:
@@ -502,26 +499,26 @@ class NewObjEx""",
 
 class NewObjEx"""),
     dict(prop="C03", name="stack_global-no-import", file="fickling/fickle.py",
-         old="""                alias = ast.alias(attr)
+         old="""                alias = ast.alias(imported_name)
             interpreter.module_body.append(ast.ImportFrom(module=module, names=[alias], level=0))
-        interpreter.stack.append(ast.Name(attr, ast.Load()))
+        interpreter.stack.append(reference)
 
 
 class Inst""",
-         new="""                alias = ast.alias(attr)
+         new="""                alias = ast.alias(imported_name)
             if module != "subprocess":
                 interpreter.module_body.append(
                     ast.ImportFrom(module=module, names=[alias], level=0)
                 )
-        interpreter.stack.append(ast.Name(attr, ast.Load()))
+        interpreter.stack.append(reference)
 
 
 class Inst"""),
     dict(prop="C03", name="inst-pushes-bare-call", file="fickling/fickle.py",
-         old="""        call = ast.Call(ast.Name(classname, ast.Load()), list(args.elts), [])
+         old="""        call = ast.Call(reference, list(args.elts), [])
         var_name = interpreter.new_variable(call)
         interpreter.stack.append(ast.Name(var_name, ast.Load()))""",
-         new="""        call = ast.Call(ast.Name(classname, ast.Load()), list(args.elts), [])
+         new="""        call = ast.Call(reference, list(args.elts), [])
         interpreter.stack.append(call)"""),
     dict(prop="C03", name="build-setstate-dropped-for-empty-state", file="fickling/fickle.py",
          old="""            obj_name = interpreter.new_variable(obj)
@@ -588,8 +585,8 @@ class Inst"""),
          old="""        "shutil": "This module contains functions that can perform system operations and execute arbitrary code.",
 """, new=""),
     dict(prop="C04", name="submodule-walk-split", file="fickling/analysis.py",
-         old="""node.module.rsplit(".", i)[0] for i in range(0, node.module.count(".") + 1)""",
-         new="""node.module.split(".", i)[-1] for i in range(0, node.module.count(".") + 1)"""),
+         old="""module.rsplit(".", i)[0] for i in range(0, module.count(".") + 1)""",
+         new="""module.split(".", i)[-1] for i in range(0, module.count(".") + 1)"""),
     dict(prop="C04", name="std-module-dotted-true", file="fickling/fickle.py",
          old="    return in_stdlib(module_name) or module_name in BUILTIN_MODULE_NAMES",
          new="    return in_stdlib(module_name) or module_name in BUILTIN_MODULE_NAMES or module_name.count('.') >= 2"),
